@@ -101,10 +101,14 @@ func LookupWellKnown(ctx context.Context, serverNameType spec.ServerName) (*Well
 	// By this point we hope that we've caught any huge well-known records
 	// by checking Content-Length, but it's possible that header will be
 	// missing. Better to be safe than sorry by reading no more than the
-	// WellKnownMaxSize in any case.
-	body, err := io.ReadAll(&io.LimitedReader{R: resp.Body, N: WellKnownMaxSize})
+	// WellKnownMaxSize in any case. Read one byte more than the limit so that
+	// an oversized body is refused rather than silently truncated.
+	body, err := io.ReadAll(&io.LimitedReader{R: resp.Body, N: WellKnownMaxSize + 1})
 	if err != nil {
 		return nil, err
+	}
+	if len(body) > WellKnownMaxSize {
+		return nil, fmt.Errorf("well-known response exceeds %d bytes", WellKnownMaxSize)
 	}
 
 	// Convert result to JSON
